@@ -187,6 +187,8 @@ class Builder:
             return np.array(n[1])
         if k == "list":
             return list(n[1])
+        if k == "tuple":
+            return tuple(n[1])
         if k == "vbin":
             return _OPS[n[1]](self.V(n[2]), self.any(n[3]))
         if k == "vrbin":
